@@ -895,7 +895,7 @@ do_repr(int mask, int which, int ia, int ib, const struct val_s *A, const struct
 }
 
 /* (g) business days (%db) together with time units, and -f bizsi, on date-times.
- * sign rule always; for two Monday..Friday operands the components recombine by application:
+ * sign rule always; from a Monday..Friday earlier operand the components recombine by application:
  * earlier (+) Nw Nb Nh Nm Ns through dadd must not pass the later value and be less than one
  * finest unit short of it; business days < 5 under weeks, minutes < 60 under hours, seconds < 60
  * under minutes (hours under business days are not bounded: a weekend may lie in the remainder) */
@@ -995,8 +995,8 @@ do_biz(int fi, int ia, int ib, const struct val_s *A, const struct val_s *B)
 			   ((b->units & 4) && !(b->units & 8) && (b->units & 16) && c[4] >= 3600)) {
 			kind = 2;
 			snprintf(why, sizeof(why), "a refined unit is outside its natural range (business days < 5 under weeks, minutes < 60 under hours, seconds < 60 under minutes)");
-		} else if (!(rc_get(A->rd)->isbd && rc_get(B->rd)->isbd)) {
-			EX_CTR(c_we, "skipped:business days with time units from or to a weekend day (only sign and shape judged)");
+		} else if (!rc_get(e->rd)->isbd) {
+			EX_CTR(c_we, "skipped:business days from a weekend day (only sign and shape judged)");
 			++*c_we;
 		} else {
 			char units[128] = "", got[64], g1[64];
@@ -1379,7 +1379,7 @@ main(int argc, char *argv[])
 		"in the duplicate-free format (same durfmt flags, hence the same duration), same sign; %%S and %%rS in one format print the same numbers in either order; "
 		"epoch-held operands (@N): the output is a function of the two instants, so it must be the text printed for the same instants given as civil date-times "
 		"(both operands epoch-held, either one, and a date-only operand against an epoch-held one; days after 4094-05-04, which the tools cannot convert, skipped); "
-		"%%db with time units and -f bizsi on date-times: sign rule always, and for two Monday..Friday operands recombination by application (earlier + Nw Nb Nh Nm Ns "
+		"%%db with time units and -f bizsi on date-times: sign rule always, and from a Monday..Friday earlier operand recombination by application (earlier + Nw Nb Nh Nm Ns "
 		"through dadd must not pass the later value and be less than one finest unit short), business days < 5 under weeks, minutes/seconds < 60; "
 		"%%rS inside month/year/business-day formats: its slot = the %%S slot of the same format + the leap seconds between the operands (taken from the tool's own -f %%rS minus -f %%S). "
 		"Reading kept for %%Y with time units but without %%m %%w %%d (audit F1: months silently dropped): info/format-ddiff.texi lists only %%m %%w %%d as refinements of %%Y "
